@@ -34,7 +34,7 @@ ASSUMPTIONS = [
     "reference-model comparison of in-place operators only when the exact result is representable in the target's system",
 ]
 SHARD_TIMEOUT = {"quick": 900, "thorough": 7200}
-NHIST = {"quick": 40, "thorough": 400}
+NHIST = {"quick": 60, "thorough": 3000}
 LEN = {"quick": 12, "thorough": 60}
 GROUP = {"x": 0, "y": 0, "rho": 0, "phi": 0, "z": 1, "theta": 1, "eta": 1, "t": 2, "tau": 2}
 PARTNER = {"x": "y", "y": "x", "rho": "phi", "phi": "rho"}
